@@ -292,6 +292,10 @@ def run(ctx):
                 ctx.violation('corr:compile-hash', 'model %s vs generated %x %s' % (r, gh, gid), {'type': cname})
     ctx.sample({'compile_hash_case': lines[0], 'model': res[0]})
 
+    # ---- generated typed-root API on types whose hash has an embedded zero byte
+    from . import c17_typed
+    c17_typed.typed_roots(ctx)
+
     ctx.trusted = lib.DEFAULT_TRUSTED + ['translators/consts_probe.c (T1: error codes and sizes from /repo headers)']
     ctx.assumptions = ['little-endian host', 'identifier strings are NUL-terminated C strings', 'uoffset_t is 32 bit (asserted by T1 constants)']
     ctx.finish_args = dict(
